@@ -171,6 +171,9 @@ func VH_C06_sync() {
 	// allowFailure (the same for all bindings of the hook): a failed Synchronization
 	// run is then dropped instead of retried - and the events are unlocked all the same
 	allow := zz.Bool("allow_failure")
+	// the bindings may name their own queue (for their Events): Synchronizations are
+	// delivered in the main queue all the same
+	bqueue := zz.ConcretizeStr(zz.OneOf("bindings_queue", "main", "q1"))
 	for i := 0; i < nb; i++ {
 		si := strconv.Itoa(i)
 		exec[i] = zz.Bool("exec_on_sync" + si)
@@ -179,7 +182,7 @@ func VH_C06_sync() {
 		mc.Metadata.MonitorId = "mon-" + si
 		cfg.OnKubernetesEvents = append(cfg.OnKubernetesEvents, htypes.OnKubernetesEventConfig{
 			CommonBindingConfig: htypes.CommonBindingConfig{BindingName: "kb" + si, AllowFailure: allow},
-			Monitor:             mc, Queue: "main", Group: group[i], ExecuteHookOnSynchronization: exec[i],
+			Monitor:             mc, Queue: bqueue, Group: group[i], ExecuteHookOnSynchronization: exec[i],
 		})
 	}
 	cfg.Schedules = []htypes.ScheduleConfig{{ScheduleEntry: smtypes.ScheduleEntry{Crontab: "* * * * *", Id: "s0"}, Queue: "main"}}
@@ -188,6 +191,10 @@ func VH_C06_sync() {
 	e.finish()
 	op := e.op
 	op.bootstrapMainQueue(op.TaskQueues)
+	if bqueue != "main" {
+		// initAndStartHookQueues creates the queues the bindings name
+		op.TaskQueues.NewNamedQueue(bqueue, nil)
+	}
 	q := op.TaskQueues.GetMain()
 
 	// creating the monitor of one binding may fail once (its CRD is not installed
@@ -296,6 +303,17 @@ func VH_C06_sync() {
 			zz.Assert(okRunsWith >= 1, "group_synchronization_delivered")
 			zz.Assert(okRunsWith <= wanting, "group_members_share_executions")
 		}
+	}
+	// a group whose members all ask for Synchronization, with nothing failing, gets
+	// exactly one execution
+	allG1 := version == "v1" && !failFirst && failAdd == 0
+	for i := 0; i < nb; i++ {
+		if group[i] != "g1" || !exec[i] {
+			allG1 = false
+		}
+	}
+	if allG1 {
+		zz.Assert(len(delivered) == 1, "group_synchronization_is_one_execution")
 	}
 	// schedules start producing tasks only after every Synchronization ran
 	zz.Assert(schedEnabledAtRun == runs, "schedules_enabled_after_synchronizations")
